@@ -276,7 +276,8 @@ def contracts(s, fresh_builder, data, workdir, which):
             EE = [(x[0], loc(x[1])) for x in E]; rp = '/' + res.root.tag.split('}')[-1]
             for thin in (True, False):
                 lz = xmlschema.XMLResource(p, lazy=True, thin_lazy=thin)
-                EL = [(type(e).__name__, loc(e.path)) for e in s.iter_errors(lz)]
+                lerrs = list(s.iter_errors(lz))             # the paths are read after the run: an error of a lazy resource must not depend on the stream position
+                EL = [(type(e).__name__, loc(e.path)) for e in lerrs]
                 if EL == EE: continue
                 # the root element of a lazy resource is complete - and validated - only after its last chunk: its own errors come last
                 # (and with them what the root's model group reports about its children: a blocked substitution, a child that may not be there)
